@@ -131,7 +131,7 @@ def parseNumber (buf : Buf) (bound : Nat) (i : Nat) (neg : Bool) : PNum × Nat :
         if !isDigitAt buf (j+1) then (.invalid, j+1)
         else
           match parseFraction buf bound (j+1) sig exp (17 - (cnt : Int)) (j+1) with
-          | some (s, e, t, k) => (.toFloat neg s e (t || trunc), k)
+          | some (s, e, t, k) => (.toFloat neg s e t, k)   -- `trunc = parse_number_fraction(..)`: the earlier flag is overwritten
           | none => (.invalid, j+1)
       else
         if exp == 0 then
